@@ -11,7 +11,7 @@ from ..core import Clause
 from ..oracles import bvn
 from ..strategies import finite
 
-RULE = ("Covariances (var_x, var_y log-uniform over 1e-4..1e2, correlation r from a mixture: uniform(-0.999,0.999), values at and within "
+RULE = ("Covariances (var_x, var_y from 1e-10 .. 1e4, correlation r from a mixture: uniform(-0.999,0.999), values at and within "
         "1e-3 / 1e-9 of the branch thresholds +-0.3, +-0.75, +-0.925, and |r| = 1 - 10^-k) and evaluation points given as standardised "
         "offsets (N(0,2^2)-like, at the mean, +-3..8 sd, far tails +-10..10^4 sd in all sign combinations).")
 ASSUMPTIONS = [
@@ -29,7 +29,7 @@ def correlation(draw):
     if kind == "uniform":
         return draw(finite(-0.999, 0.999))
     if kind == "small":
-        return draw(finite(-0.3, 0.3))
+        return draw(st.one_of(finite(-0.3, 0.3), st.sampled_from([1e-3, -1e-3, 1e-5, -1e-5, 0.01, -0.05])))
     sign = draw(st.sampled_from([1.0, -1.0]))
     if kind == "threshold":
         t = draw(st.sampled_from(THR))
@@ -39,7 +39,7 @@ def correlation(draw):
     return sign * draw(st.sampled_from([1 - 10.0 ** (-k), 0.93, 0.95, 0.97, 0.99, 0.926]))
 
 
-variance = st.sampled_from([1.0, 1.0, 0.25, 4.0, 1e-2, 1e2, 1e-4, 0.5, 2.0, 9.0])
+variance = st.sampled_from([1.0, 1.0, 0.25, 4.0, 1e-2, 1e2, 1e-4, 0.5, 2.0, 9.0, 1e-6, 1e-8, 1e-10, 1e4])
 
 
 @st.composite
